@@ -26,6 +26,7 @@ const (
 	modPath   = "github.com/crate-crypto/go-ipa"
 	schedPath = modPath + "/zzverif/vsched"
 	syncPath  = modPath + "/zzverif/vsync"
+	atomPath  = modPath + "/zzverif/vatomic"
 )
 
 var pkgDirs = []string{"bandersnatch/fr", "bandersnatch/fp", "bandersnatch", "common/parallel", "banderwagon", "common", "ipa", "."}
@@ -128,7 +129,7 @@ func main() {
 		}
 	}
 	// shim packages as virtual dirs
-	for _, sub := range []string{"vsched", "vsync"} {
+	for _, sub := range []string{"vsched", "vsync", "vatomic"} {
 		ents, _ := os.ReadDir(filepath.Join(*shim, sub))
 		for _, e := range ents {
 			if strings.HasSuffix(e.Name(), ".go") {
@@ -188,7 +189,9 @@ type rewriter struct {
 	need  bool
 }
 
-func sel(pkg, name string) ast.Expr { return &ast.SelectorExpr{X: ast.NewIdent(pkg), Sel: ast.NewIdent(name)} }
+func sel(pkg, name string) ast.Expr {
+	return &ast.SelectorExpr{X: ast.NewIdent(pkg), Sel: ast.NewIdent(name)}
+}
 
 func isChan(t types.Type) bool {
 	if t == nil {
@@ -414,6 +417,13 @@ func (r *rewriter) rewrite() bool {
 			im.Path.Value = `"` + syncPath + `"`
 			im.Name = ast.NewIdent("sync")
 			r.count("syncimport")
+		}
+		if im.Path.Value == `"sync/atomic"` {
+			im.Path.Value = `"` + atomPath + `"`
+			if im.Name == nil {
+				im.Name = ast.NewIdent("atomic")
+			}
+			r.count("atomicimport")
 		}
 	}
 	if r.need {
